@@ -12,11 +12,15 @@ import cgroup
 from cgroup import Case
 
 ID = "C05"
-LEAN_MODULES = ["FaxVerif.C05.Theorems", "FaxVerif.C05.TheoremsFragment", "FaxVerif.C05.TheoremsNested"]
+LEAN_MODULES = ["FaxVerif.C05.Theorems", "FaxVerif.C05.TheoremsFragment", "FaxVerif.C05.TheoremsNested", "FaxVerif.C05.TheoremsWf"]
 LEAN_SOURCES = ["FaxVerif/C05", "FaxVerif/Cpp", "FaxVerif/Gen"]
 DRIVER = cgroup.DRIVER
 SETUP_MODULES = cgroup.DRIVER_IMPORTS  # what the driver imports
 THEOREMS = [
+    "FaxVerif.C05.compile_eventLocal",
+    "FaxVerif.C05.fragment_job_is_per_event",
+    "FaxVerif.C05.fragment_event_history_free",
+    "FaxVerif.C05.fragment_fault_is_the_events",
     "FaxVerif.C05.inner_accumulator_restarts",
     "FaxVerif.C05.storage_vector_restarts",
     "FaxVerif.C05.nested_event_post_partial",
@@ -60,7 +64,11 @@ LEVEL_TEXT = (
     "(fragment_job_split), independence of the prefix (fragment_prefix_independent: the rows of event k are those of running it "
     "alone from the initial class state) and permutation of the events (fragment_perm) — proved from the class-state invariant "
     "'vector columns empty, scalar columns declared' that every event re-establishes (fragment_event_post_partial, "
-    "fragment_init_pre). The same for the NESTED fragment (loops inside lambdas: per-element inner aggregates, 2-D columns): the inner "
+    "fragment_init_pre). The static checker of (2) is PROVED to accept every program of the fragment (compile_eventLocal), so its "
+    "conclusions hold for all fragment programs and ALL event lists, faulting events included: the job is the concatenation of "
+    "per-event runs from the initial class state (fragment_job_is_per_event), from any clean class state an event faults with the "
+    "same fault or writes the same rows (fragment_event_history_free), and a fault of the job is the fault of that event alone "
+    "(fragment_fault_is_the_events). The same for the NESTED fragment (loops inside lambdas: per-element inner aggregates, 2-D columns): the inner "
     "accumulator and the 2-D storage vector restart for every outer element (inner_accumulator_restarts, storage_vector_restarts) and a "
     "job is the concatenation of its events (nested_job_correct_partial, nested_job_split, nested_prefix_independent, nested_perm). "
     "(2) Lean 4 theorems for every package accepted by the verified static checker EventLocal (definite assignment from an empty "
